@@ -7,4 +7,4 @@ for f in sys.argv[1:]:
     cfg=[l[4:] for l in j['plan'] if l.startswith('cfg ') and not any(k in l for k in ('hseed','seed=','profile'))]
     print('  '+' '.join(cfg))
     for l in j['plan']:
-        if l.startswith('op '): print('  '+l)
+        if l.startswith('op ') or l.startswith('task '): print('  '+l)
